@@ -38,8 +38,7 @@ FAULTS = {
     "unterminated_string_at_eof": ("scan_eof", ".ascii 'abc", "'abc", 0),
     "suffix_missing_at_eol": ("scan", "lda.", "lda.", 4),
 }
-NODE_RE = re.compile(r"^(?P<file>.+?):(?P<line>-?\d+) (?P<text>.*)$")
-SCAN_RE = re.compile(r"^(?P<file>.+?):(?P<line>-?\d+):(?P<col>-?\d+) : ")
+LOC_RE = re.compile(r"(?P<file>[\w./-]+):(?P<line>-?\d+)(?::(?P<col>-?\d+))?")
 
 
 def plan(tier: str, seed: int) -> list[dict]:
@@ -109,37 +108,29 @@ def check_case(res: Res, p: dict, name: str, where: tuple[list, int], lay_seed: 
         res.violate("error-not-reported", f"injected {name} at {fname}:{line} but the program assembled", wit)
         return
     etext = r.err_text if r.err_kind == "returned" else str(r.exc)
-    if kind == "node":
-        if r.err_kind != "NodeError":
-            res.count("other_error_kind_unjudged")
-            res.see("other_error_kinds", r.err_kind)
-            return
-        last = etext.strip("\n").split("\n")
-        # the line text may itself be followed by nothing; the location line is the one after ' at'
-        loc = next((ln for ln in last if NODE_RE.match(ln) and ":" in ln.split(" ")[0]), None)
-        m = NODE_RE.match(loc) if loc else None
-        if not m:
-            res.violate("no-location", f"{name}: error carries no file:line location: {etext[:200]!r}", wit)
-            return
-        got = (m.group("file"), int(m.group("line")), m.group("text"))
-        want = (fname, line, want_text)
-        if got != want:
-            res.violate(classify(name, got[1], line, None), f"{name}: reported {got[0]}:{got[1]} quoting {got[2]!r}, the statement is at {want[0]}:{want[1]} {want[2]!r}", wit)
+    if kind == "node" and r.err_kind != "NodeError" and not LOC_RE.search(etext):
+        # another exception type without location (e.g. a KeyError escaping): not what this fault class is about
+        res.count("other_error_kind_unjudged")
+        res.see("other_error_kinds", r.err_kind)
         return
-    # lexical errors
-    if r.err_kind != "returned":
-        res.violate("no-location", f"{name}: lexical error surfaced as {r.err_kind} without a location: {etext[:160]!r}", wit)
+    # The property asks for: file, zero-based line, the line's text, and (lexical errors) the column. The exact wording and
+    # arrangement of the message are not part of it, so the text is searched rather than matched against one format.
+    locs = [(m.group("file"), int(m.group("line")), int(m.group("col")) if m.group("col") is not None else None) for m in LOC_RE.finditer(etext)]
+    locs = [l for l in locs if l[0].endswith(".s")]
+    if not locs:
+        res.violate("no-location", f"{name}: the error carries no <file>:<line> location: {etext[:200]!r}", wit)
         return
-    lines = etext.split("\n")
-    m = SCAN_RE.match(lines[0].strip("\n")) if lines else None
-    if not m:
-        res.violate("no-location", f"{name}: error text has no file:line:column: {etext[:200]!r}", wit)
+    want_col = None if kind == "node" else want_text.index(marker) + moff
+    good = [l for l in locs if l[0] == fname and l[1] == line and (want_col is None or l[2] == want_col)]
+    if not good:
+        got = locs[0]
+        res.violate(classify(name, got[1], line, got[2]),
+                    f"{name}: reported {got[0]}:{got[1]}" + (f":{got[2]}" if got[2] is not None else "") + f", the offending {'character' if want_col is not None else 'statement'} is at "
+                    f"{fname}:{line}" + (f":{want_col}" if want_col is not None else "") + f" in {want_text!r}; message {etext[:160]!r}", wit)
         return
-    col_want = want_text.index(marker) + moff
-    got = (m.group("file"), int(m.group("line")), int(m.group("col")), lines[1] if len(lines) > 1 else None)
-    want = (fname, line, col_want, want_text)
-    if got != want:
-        res.violate(classify(name, got[1], line, got[2]), f"{name}: reported {got[0]}:{got[1]}:{got[2]} quoting {got[3]!r}, the offending character is at {want[0]}:{want[1]}:{want[2]} in {want[3]!r}", wit)
+    if want_text.strip() and want_text not in etext.split("\n") and want_text.strip() not in etext:
+        quoted = [ln for ln in etext.split("\n")[1:3]]
+        res.violate("wrong-location", f"{name}: location {fname}:{line} is right but the quoted text is {quoted!r}, the line reads {want_text!r}", wit)
 
 
 def run_shard(shard: dict) -> Res:
